@@ -66,6 +66,11 @@ Promoted(g, e)        == g.role = "standby" /\ e.role = "active"
 FailedBack(cfg, g, e) == g.role # cfg.orig /\ e.role = cfg.orig
 ForcedNow(g, e)       == g.forced \/ (e.op = "force_failover" /\ e.acc)
 
+\* a step in which callbacks for both roles succeeded may hide a promotion that was undone within the
+\* step (only the role before and after the step is observed): the number of promotions is then only
+\* known to lie between the net change and the number of successful "active" callbacks
+FlipFlop(e) == CbIdx(e, "active", TRUE) # {} /\ CbIdx(e, "standby", TRUE) # {}
+
 \* latest instant at which the promotion can have happened / earliest instant of the failback
 PromOff(e) == IF CbIdx(e, "active", TRUE) # {} THEN SetMax({e.cbs[i].off : i \in CbIdx(e, "active", TRUE)}) ELSE e.dt
 PromOffEarly(e) == IF CbIdx(e, "active", TRUE) # {} THEN SetMin({e.cbs[i].off : i \in CbIdx(e, "active", TRUE)}) ELSE 0
@@ -85,7 +90,10 @@ EdgeClauses(cfg, g, e) ==
           THEN {IF DownAtStart(g, e) = None /\ g.recovered THEN "RecoveryCancels" ELSE "PromoteOnlyAfterDelay"}
           ELSE {})
   \cup (IF e.role # g.role /\ CbIdx(e, e.role, TRUE) = {} THEN {"RoleAfterCallback"} ELSE {})
-  \cup (IF NCompleted(e) # (IF Promoted(g, e) THEN 1 ELSE 0) THEN {"OneCompletedPerPromotion"} ELSE {})
+  \cup (IF FlipFlop(e)
+          THEN (IF NCompleted(e) < (IF Promoted(g, e) THEN 1 ELSE 0) \/ NCompleted(e) > Cardinality(CbIdx(e, "active", TRUE))
+                  THEN {"OneCompletedPerPromotion"} ELSE {})
+          ELSE (IF NCompleted(e) # (IF Promoted(g, e) THEN 1 ELSE 0) THEN {"OneCompletedPerPromotion"} ELSE {}))
   \cup (IF FailedBack(cfg, g, e) /\ g.unhFor # None /\ ~e.healthy /\ g.unhFor + BackOff(cfg, e) > cfg.grace
           THEN {"FailbackOnlyHealthy"} ELSE {})
 
